@@ -18,6 +18,8 @@ PROPS = {
     "C12": {"coq": "Properties/C12.v", "gens": ["C12"]},
     "C13": {"coq": "Properties/C13.v", "gens": ["C13"]},
     "C14": {"coq": "Properties/C14.v", "gens": ["C14"], "trusted_base": CRYPTO_TB},
+    "C18": {"coq": "Properties/C18.v", "gens": ["C18"], "race": True},
+    "C19": {"coq": "Properties/C19.v", "gens": ["C19"]},
     "C17": {"coq": "Properties/C17.v", "gens": ["C17"]},
     "C16": {"coq": "Properties/C16.v", "gens": ["C16"]},
     "C15": {"coq": "Properties/C15.v", "gens": ["C15"], "trusted_base": CRYPTO_TB},
